@@ -110,26 +110,30 @@ def _r4_empty(ctx: Ctx) -> None:
             raise AnalysisError(f"C18/R4: {what}: expected exactly one path with a non-empty answer, found {len(alive)}")
         c = mk_and(list(alive[0]))
         return set(c[1]) if c[0] == "and" else {c}
-    da, dm = live(ca, k_num(0), "area_overlap"), live(cm, K_NONE, "__mul__")
-    region_test = {d for d in dm if contains(d, "region")}
-    if da != dm - region_test or len(da) != 2:
-        ctx.report(fa.where, "empty-guard " + " | ".join(sorted(show(x) for x in da ^ (dm - region_test))),
-                   "area_overlap and __mul__ disagree on when two rectangles have no common region",
-                   lineno=fa.node.lineno, area_overlap=[show(x) for x in da], mul=[show(x) for x in dm])
-    # the condition itself: max(ll.a, ll.b) < min(ur.a, ur.b) per axis (the empty answer for max(lows) >= min(highs))
-    for d in sorted(da, key=skey):
-        ctx.site(fa.where, "non-emptiness is 'max(lows) < min(highs)'", guard=show(d))
-        good = False
-        if d[0] == "lt0":
-            p = to_poly(d[1])
-            pos = [a for mono, c in p.t.items() if c == 1 for a, _ in mono]
-            neg = [a for mono, c in p.t.items() if c == -1 for a, _ in mono]
-            if len(p.t) == 2 and len(pos) == 1 and len(neg) == 1:
-                good = (pos[0][0] == "c" and pos[0][1] == ("g", "max") and all(contains(x, "ll") for x in pos[0][2])
-                        and neg[0][0] == "c" and neg[0][1] == ("g", "min") and all(contains(x, "ur") for x in neg[0][2]))
-        if not good:
-            ctx.report(fa.where, f"empty-guard-shape {show(d)}",
-                       "the empty-intersection test is not 'max(low bounds) >= min(high bounds)'", lineno=fa.node.lineno)
+    def bbc(obj, corner, axis):
+        return ("a", ("a", ("a", obj, "bounding_box"), corner), axis)
+    expected = set()
+    for axis in "xy":
+        lows = tuple(sorted([bbc(("self",), "ll", axis), bbc(("p", 0), "ll", axis)], key=skey))
+        highs = tuple(sorted([bbc(("self",), "ur", axis), bbc(("p", 0), "ur", axis)], key=skey))
+        expected.add(mk_lt(("c", ("g", "max"), lows, ()), ("c", ("g", "min"), highs, ())))
+    # each function is compared with the definition (max of the low sides < min of the high sides, on both axes), so a
+    # deviation is located in the function that deviates
+    if wanted(ctx, "area_overlap", "overlap"):
+        da = live(ca, k_num(0), "area_overlap")
+        ctx.site(fa.where, "area_overlap is non-zero exactly when max(lows) < min(highs) on both axes", condition=sorted(show(x) for x in da))
+        if da != expected:
+            ctx.report(fa.where, "empty-guard " + " | ".join(sorted(show(x) for x in da ^ expected))[:300],
+                       "area_overlap does not give the empty answer exactly when max(low bounds) >= min(high bounds) on some axis",
+                       lineno=fa.node.lineno, area_overlap=[show(x) for x in da])
+    if wanted(ctx, "__mul__"):
+        dm = live(cm, K_NONE, "__mul__")
+        region_test = {d for d in dm if contains(d, "region")}
+        ctx.site(fm.where, "__mul__ gives a rectangle exactly when the regions agree and max(lows) < min(highs) on both axes", condition=sorted(show(x) for x in dm))
+        if dm - region_test != expected or len(region_test) != 1:
+            ctx.report(fm.where, "empty-guard-mul " + " | ".join(sorted(show(x) for x in (dm - region_test) ^ expected))[:300],
+                       "__mul__ and area_overlap disagree on when two rectangles have a common region: the intersection is not returned exactly when "
+                       "the regions agree and max(low bounds) < min(high bounds) on both axes", lineno=fm.node.lineno, mul=[show(x) for x in dm])
 
 
 def _r4_cuttable(ctx: Ctx) -> None:
@@ -172,7 +176,7 @@ def r4(ctx: Ctx) -> None:
     if wanted(ctx, "overlap"):
         _r4_overlap(ctx)
     if wanted(ctx, "area_overlap", "__mul__", "overlap"):
-        _r4_empty(ctx)
+        _r4_empty(ctx)      # (evaluates each of the two functions only if wanted)
     if wanted(ctx, "x_cuttable", "y_cuttable"):
         _r4_cuttable(ctx)
 
